@@ -43,3 +43,97 @@ package transport
 //@   ensures err == nil
 //@   ensures d2 >= d
 //@   ensures Z(d2) - Z(d) < unitNanos(e[len(e)-1]) || d2 == 9223372036854775807
+
+// ---- C04: inbound flow control ledger ---------------------------------------
+//
+// win(f) is the window the peer may still use as the receiver accounts it:
+// everything advertised (limit + temporary delta) minus what has arrived and
+// has not been given back by a WINDOW_UPDATE yet. Every operation changes it by
+// exactly the externally visible quantity (bytes received, update returned), so
+// by induction over any history the peer's own view (initial window - bytes
+// sent + updates received) equals win(f).
+
+//@ spec func win(f *inFlow) Z {
+//@   return Z(f.limit) + Z(f.delta) - Z(f.pendingData) - Z(f.pendingUpdate)
+//@ }
+//@ spec func inflowInv(f *inFlow) bool {
+//@   return Z(f.limit)+Z(f.delta) <= 2147483647 && Z(f.pendingData)+Z(f.pendingUpdate) <= Z(f.limit)+Z(f.delta)
+//@ }
+
+//@ func (*inFlow).onData
+//@   prop C04
+//@   nopanic
+//@   opt atomic mu
+//@   modifies f.pendingData
+//@   requires f != nil && inflowInv(f) && n <= 16777215+255
+//@   ensures iff(result != nil, Z(n) > old(win(f)))
+//@   ensures win(f) == old(win(f)) - Z(n)
+//@   ensures implies(result == nil, inflowInv(f))
+
+//@ func (*inFlow).onRead
+//@   prop C04
+//@   nopanic
+//@   opt atomic mu
+//@   modifies f.pendingData, f.pendingUpdate, f.delta
+//@   requires f != nil && inflowInv(f) && (n <= f.pendingData || f.pendingData == 0)
+//@   requires f.pendingUpdate == 0 || f.pendingUpdate < f.limit/4
+//@   ensures win(f) == old(win(f)) + Z(result)
+//@   ensures inflowInv(f)
+//@   ensures implies(old(f.pendingData) != 0, Z(f.pendingData) == Z(old(f.pendingData)) - Z(n))
+//@   ensures implies(old(f.pendingData) != 0, Z(f.delta) == imax(Z(old(f.delta)) - Z(n), 0))
+//@   ensures f.pendingUpdate == 0 || f.pendingUpdate < f.limit/4
+//@   ensures implies(f.pendingData == 0 && f.delta == 0 && old(f.pendingData) != 0, win(f) > Z(f.limit) - Z(f.limit)/4 - 1)
+
+//@ func (*inFlow).maybeAdjust
+//@   prop C04
+//@   nopanic
+//@   opt atomic mu
+//@   modifies f.delta
+//@   requires f != nil && inflowInv(f) && f.delta == 0
+//@   ensures result == f.delta
+//@   ensures Z(f.limit) + Z(f.delta) <= 2147483647
+//@   ensures win(f) == old(win(f)) + Z(result)
+//@   ensures inflowInv(f)
+//@   ensures win(f) + Z(f.pendingData) >= imin(imin(Z(n), 2147483647), 2147483647 - Z(f.pendingUpdate))
+
+//@ func (*inFlow).newLimit
+//@   prop C04
+//@   nopanic
+//@   opt atomic mu
+//@   modifies f.limit
+//@   requires f != nil && n >= f.limit && Z(n) + Z(f.delta) <= 2147483647
+//@   ensures f.limit == n
+//@   ensures win(f) == old(win(f)) + Z(n) - Z(old(f.limit))
+//@   ensures implies(old(inflowInv(f)), inflowInv(f))
+
+//@ func (*trInFlow).newLimit
+//@   prop C04
+//@   nopanic
+//@   modifies f.limit, f.effectiveWindowSize
+//@   requires f != nil && n >= f.limit && f.unacked <= f.limit
+//@   ensures f.limit == n && Z(result) == Z(n) - Z(old(f.limit))
+//@   ensures Z(f.effectiveWindowSize) == Z(f.limit) - Z(f.unacked)
+
+//@ func (*trInFlow).onData
+//@   prop C04
+//@   nopanic
+//@   modifies f.unacked, f.effectiveWindowSize
+//@   requires f != nil && Z(f.unacked) + Z(n) <= 4294967295 && f.unacked <= f.limit
+//@   ensures Z(result) + Z(f.unacked) == Z(old(f.unacked)) + Z(n)
+//@   ensures f.unacked == 0 || f.unacked < f.limit/4
+//@   ensures implies(result == 0, f.unacked != 0 || n == 0 || f.limit < 4)
+//@   ensures implies(Z(old(f.unacked)) + Z(n) <= Z(f.limit), Z(f.effectiveWindowSize) == Z(f.limit) - Z(f.unacked))
+
+//@ func (*trInFlow).reset
+//@   prop C04
+//@   nopanic
+//@   modifies f.unacked, f.effectiveWindowSize
+//@   requires f != nil
+//@   ensures result == old(f.unacked) && f.unacked == 0 && f.effectiveWindowSize == f.limit
+
+//@ func (*trInFlow).updateEffectiveWindowSize
+//@   prop C04
+//@   nopanic
+//@   modifies f.effectiveWindowSize
+//@   requires f != nil
+//@   ensures f.effectiveWindowSize == f.limit - f.unacked
